@@ -25,7 +25,7 @@ STEP1_OPS = frozenset({
 })
 
 # small seeds on which the depth-2 phase of the quick tier is exhaustive
-QUICK_D2_SEEDS = ["loops/l1", "dep/scalar_between", "guard/alloc_else", "win/local"]
+QUICK_D2_SEEDS = ["loops/l1", "dep/scalar_between"]
 
 
 def merge(total, st, label):
@@ -80,19 +80,30 @@ def nestgen():
     return [s.name for s in seeds.nest_seeds()]
 
 
-def standard(tier, d2_states_cap=None, thorough_cap=6000, thorough_budget=3000, dep_ops=None, d2_seeds=None):
-    """the plan used by C01/C04/C06/C07/C17 (each passes its own caps)"""
+# operations whose side conditions depend on the dependence / bound structure the generated families vary
+DEP_OPS = frozenset({
+    "reorder_stmts", "fission", "fuse", "reorder_loops", "lift_scope", "remove_loop", "add_loop", "join_loops",
+    "cut_loop", "shift_loop", "divide_loop", "divide_with_recompute", "unroll_loop", "mult_loops", "merge_writes",
+    "fold_into_reduce", "inline_assign", "lift_reduce_constant", "stage_mem", "specialize", "eliminate_dead_code",
+    "std.unroll_and_jam", "std.hoist_stmt", "std.fission_into_singles", "std.hoist_from_loop", "std.tile_loops",
+    "std.reorder_stmt_forward", "std.reorder_stmt_backwards", "std.interleave_loop", "autofission", "simplify",
+    "extract_subproc0", "bind_expr", "delete_pass",
+})
+
+
+def standard(tier, d2_states_cap=None, thorough_cap=6000, thorough_budget=3000, families="full", d2_seeds=None):
+    """the plan used by C01/C04/C06/C07/C17 (each passes its own caps).
+    families: "full" (complete menu on the generated families in the thorough tier, DEP_OPS in the quick
+    tier), "dep" (dependence-relevant operations only)
+    or None (the generated families add nothing for this oracle)"""
+    fam = []
+    if families:
+        ops = None if (families == "full" and tier != "quick") else DEP_OPS
+        fam = [{"label": "B:depgen-depth1", "seeds": depgen(), "depth": 1, "root_parts": 1, "ops": ops},
+               {"label": "B2:nestgen-depth1", "seeds": nestgen(), "depth": 1, "root_parts": 1, "ops": ops}]
     if tier == "quick":
-        return [
-            {"label": "A:curated-depth1", "seeds": curated(), "depth": 1, "root_parts": 6},
-            {"label": "B:depgen-depth1", "seeds": depgen(), "depth": 1, "root_parts": 1, "ops": dep_ops},
-            {"label": "B2:nestgen-depth1", "seeds": nestgen(), "depth": 1, "root_parts": 1, "ops": dep_ops},
+        return [{"label": "A:curated-depth1", "seeds": curated(), "depth": 1, "root_parts": 6}] + fam + [
             {"label": "C:subset-depth2", "seeds": list(d2_seeds or QUICK_D2_SEEDS), "depth": 2, "root_parts": 4,
-             "ops_by_depth": [STEP1_OPS, None], "oracle_from_depth": 1, "max_states_per_level": d2_states_cap},
-        ]
-    return [
-        {"label": "B:depgen-depth1", "seeds": depgen(), "depth": 1, "root_parts": 1, "ops": dep_ops},
-        {"label": "B2:nestgen-depth1", "seeds": nestgen(), "depth": 1, "root_parts": 1, "ops": dep_ops},
-        {"label": "A:curated-depth2", "seeds": curated(), "depth": 2, "root_parts": 8,
-         "max_states_per_level": thorough_cap, "time_budget_s": thorough_budget},
-    ]
+             "ops_by_depth": [STEP1_OPS, None], "oracle_from_depth": 1, "max_states_per_level": d2_states_cap}]
+    return fam + [{"label": "A:curated-depth2", "seeds": curated(), "depth": 2, "root_parts": 8,
+                   "max_states_per_level": thorough_cap, "time_budget_s": thorough_budget}]
